@@ -931,12 +931,17 @@ func (em *emitter) emitBuiltin(call *ast.Call, reg int8, dstType reflect.Type) {
 			}
 			em.fb.exitStack()
 		} else {
-			for _, argExpr := range args {
-				em.fb.enterStack()
-				arg := em.emitExpr(argExpr, emptyInterfaceType)
-				em.fb.emitPrint(arg)
-				em.fb.exitStack()
+			// All the operands are evaluated before anything is printed.
+			em.fb.enterStack()
+			argRegs := make([]int8, len(args))
+			for i, argExpr := range args {
+				argRegs[i] = em.fb.newRegister(reflect.Interface)
+				em.emitExprR(argExpr, emptyInterfaceType, argRegs[i])
 			}
+			for _, arg := range argRegs {
+				em.fb.emitPrint(arg)
+			}
+			em.fb.exitStack()
 		}
 	case "println":
 		if em.isSpecialCall(args) {
@@ -961,7 +966,14 @@ func (em *emitter) emitBuiltin(call *ast.Call, reg int8, dstType reflect.Type) {
 			}
 			em.fb.exitStack()
 		} else {
+			// All the operands are evaluated before anything is printed.
+			em.fb.enterStack()
+			argRegs := make([]int8, len(args))
 			for i, argExpr := range args {
+				argRegs[i] = em.fb.newRegister(reflect.Interface)
+				em.emitExprR(argExpr, emptyInterfaceType, argRegs[i])
+			}
+			for i, arg := range argRegs {
 				if i > 0 {
 					em.fb.enterStack()
 					str := em.fb.makeStringValue(" ")
@@ -970,11 +982,9 @@ func (em *emitter) emitBuiltin(call *ast.Call, reg int8, dstType reflect.Type) {
 					em.fb.emitPrint(sep)
 					em.fb.exitStack()
 				}
-				em.fb.enterStack()
-				arg := em.emitExpr(argExpr, emptyInterfaceType)
 				em.fb.emitPrint(arg)
-				em.fb.exitStack()
 			}
+			em.fb.exitStack()
 		}
 		em.fb.enterStack()
 		str := em.fb.makeStringValue("\n")
